@@ -16,6 +16,8 @@ for d in sorted((VERIF / "seeded").iterdir()):
     if flt and flt not in d.name: continue
     meta = json.loads((d / "meta.json").read_text())
     prop = meta["property"]
+    if meta.get("not_observable_by_own_property"):
+        print("%-6s not observable by %s: %s" % (d.name, prop, meta["not_observable_by_own_property"])); continue
     if meta.get("superseded"):
         print("%-6s superseded: %s" % (d.name, meta["superseded"])); continue
     r = sh("git -C %s apply %s" % (repo, d / "patch.diff"))
